@@ -42,6 +42,8 @@ def run_prop(ctx, prop, replay=None):
                 d = config.load(path)
                 k = 'state_space' if kind == 'state' else 'observation_space'
                 chosen.append((list(d[k]['objects']), [c for c in d[k]['colors'] if c != 'NONE']))
+            # spaces that list the implicit types explicitly (every 9th)
+            chosen = [((ts + ['NoneGridObject'] + (['Hidden'] if kind == 'observation' and k % 2 else [])) if k % 9 == 4 else ts, cs) for k, (ts, cs) in enumerate(chosen)]
             for si, (ts, cs) in enumerate(chosen):
                 shapes = shapes_for(kind, ctx.quick)
                 (h, w) = shapes[si % len(shapes)]
